@@ -379,10 +379,9 @@ pub fn execute(c: &PanicCase) -> PanicObs {
                 _ => {}
             }
         }
+        // (only counted, never unmapped behind the library's back: an implementation may
+        // legitimately still own such a page, e.g. a pool shared by several trampolines)
         lo.log_mmaps_outstanding = live.len() as u64;
-        for a in live {
-            unsafe { ip::sys_munmap(a as usize, 4096) };
-        }
         let tainted = !lo.not_pristine.is_empty();
         o.lifetimes.push(lo);
         if tainted {
